@@ -4,6 +4,7 @@ import (
 	"fmt"
 	"math/big"
 	"math/rand"
+	"reflect"
 	"strings"
 
 	mqtt "github.com/at-wat/mqtt-go"
@@ -55,8 +56,19 @@ func muxProbe(filters []string, topic string) (accepted []bool, called []int) {
 	return
 }
 
-var c14Levels = []string{"", "a", "b", "ab", "+", "#", "a+", "+a", "#b", "a#", "++", "é", "日本", "sensor", "x y", "0"}
+var c14Levels = []string{"", "a", "b", "ab", "+", "#", "a+", "+a", "#b", "a#", "++", "é", "日本", "sensor", "x y", "0", "$", "$x", "$SYS", "a$"}
 var c14TopicLevels = []string{"", "a", "b", "ab", "é", "日本", "sensor", "x y", "0", "a+"}
+
+// levels beginning with (or containing) '$': used at NON-first positions of topics only, the
+// property excludes topic names whose first character is '$'
+var c14DollarLevels = []string{"$", "$x", "$SYS", "a$", "$$", "$aws"}
+
+func c14TopicLevel(r *rand.Rand, pos int) string {
+	if pos > 0 && r.Intn(4) == 0 {
+		return c14DollarLevels[r.Intn(len(c14DollarLevels))]
+	}
+	return c14TopicLevels[r.Intn(len(c14TopicLevels))]
+}
 
 func c14RandFilter(r *rand.Rand) string {
 	n := 1 + r.Intn(5)
@@ -90,10 +102,10 @@ func c14RandTopic(r *rand.Rand, filter string) string {
 		for _, l := range strings.Split(filter, "/") {
 			switch l {
 			case "+":
-				ls = append(ls, c14TopicLevels[r.Intn(len(c14TopicLevels))])
+				ls = append(ls, c14TopicLevel(r, len(ls)))
 			case "#":
 				for k := r.Intn(3); k > 0; k-- {
-					ls = append(ls, c14TopicLevels[r.Intn(len(c14TopicLevels))])
+					ls = append(ls, c14TopicLevel(r, len(ls)))
 				}
 			default:
 				ls = append(ls, l)
@@ -103,18 +115,275 @@ func c14RandTopic(r *rand.Rand, filter string) string {
 			ls = ls[:len(ls)-1]
 		}
 		if r.Intn(6) == 0 {
-			ls = append(ls, c14TopicLevels[r.Intn(len(c14TopicLevels))])
+			ls = append(ls, c14TopicLevel(r, len(ls)))
 		}
 	} else {
 		for k := 1 + r.Intn(4); k > 0; k-- {
-			ls = append(ls, c14TopicLevels[r.Intn(len(c14TopicLevels))])
+			ls = append(ls, c14TopicLevel(r, len(ls)))
 		}
 	}
 	t := strings.Join(ls, "/")
 	if strings.HasPrefix(t, "$") {
-		t = "x" + t
+		// outside the property: make the first level an ordinary one (half of the time so that the
+		// rest still lines up with a leading '+' of the filter)
+		if r.Intn(2) == 0 {
+			t = "x" + t
+		} else {
+			t = "x/" + t
+		}
 	}
 	return t
+}
+
+// c14FilterFor derives a filter that is likely to match the topic: levels replaced by '+', a
+// suffix replaced by '#', sometimes spoiled.
+func c14FilterFor(r *rand.Rand, topic string) string {
+	ls := strings.Split(topic, "/")
+	if r.Intn(3) == 0 {
+		cut := r.Intn(len(ls) + 1)
+		ls = append(append([]string{}, ls[:cut]...), "#")
+	}
+	for i := range ls {
+		if ls[i] != "#" && r.Intn(3) == 0 {
+			ls[i] = "+"
+		}
+	}
+	if r.Intn(8) == 0 {
+		ls[r.Intn(len(ls))] = c14Levels[r.Intn(len(c14Levels))]
+	}
+	return strings.Join(ls, "/")
+}
+
+// ---- histories of Handle / Serve operations on several ServeMux values ----
+
+type c14Op struct {
+	Serve  bool   `json:"serve"`
+	Inst   int    `json:"mux"`
+	Filter string `json:"filter,omitempty"`
+	Topic  string `json:"topic,omitempty"`
+	H      int    `json:"handler"`
+}
+
+type c14Ev struct {
+	Serve    bool  `json:"serve"`
+	Accepted bool  `json:"accepted"`
+	Called   []int `json:"called"`
+}
+
+// c14RunOps applies the operations in order to nInst fresh ServeMux values. Every handler
+// records its number and then rewrites the topic of the message it was given.
+func c14RunOps(nInst int, ops []c14Op) []c14Ev {
+	muxes := make([]*mqtt.ServeMux, nInst)
+	for i := range muxes {
+		muxes[i] = &mqtt.ServeMux{}
+	}
+	var cur *[]int
+	evs := make([]c14Ev, 0, len(ops))
+	for k, op := range ops {
+		if op.Serve {
+			called := []int{}
+			cur = &called
+			muxes[op.Inst].Serve(&mqtt.Message{Topic: op.Topic, Payload: []byte{1}})
+			cur = nil
+			evs = append(evs, c14Ev{Serve: true, Called: called})
+			continue
+		}
+		h := op.H
+		fn := func(m *mqtt.Message) {
+			if cur != nil {
+				*cur = append(*cur, h)
+			}
+			if h%2 == 0 {
+				m.Topic = "rewritten/by/handler"
+			} else {
+				m.Topic = ""
+			}
+		}
+		var err error
+		if k%2 == 0 {
+			err = muxes[op.Inst].Handle(op.Filter, mqtt.HandlerFunc(fn))
+		} else {
+			err = muxes[op.Inst].HandleFunc(op.Filter, fn)
+		}
+		evs = append(evs, c14Ev{Accepted: err == nil, Called: []int{}})
+	}
+	return evs
+}
+
+// c14History renders a history for the replay file.
+func c14History(ops []c14Op, evs []c14Ev) []string {
+	var out []string
+	for k, op := range ops {
+		switch {
+		case op.Serve:
+			out = append(out, fmt.Sprintf("%d: mux%d.Serve(topic %q) invoked handlers %v", k, op.Inst, op.Topic, evs[k].Called))
+		case evs[k].Accepted:
+			out = append(out, fmt.Sprintf("%d: mux%d.Handle(%q, handler %d) accepted", k, op.Inst, op.Filter, op.H))
+		default:
+			out = append(out, fmt.Sprintf("%d: mux%d.Handle(%q, handler %d) rejected", k, op.Inst, op.Filter, op.H))
+		}
+	}
+	return out
+}
+
+// c14OpsCoq prints a history; every distinct string is bound once by a let (numerals are the
+// expensive part of parsing the cases file).
+func c14OpsCoq(ops []c14Op, evs []c14Ev) string {
+	names := map[string]string{}
+	var lets strings.Builder
+	name := func(x string) string {
+		if n, ok := names[x]; ok {
+			return n
+		}
+		n := fmt.Sprintf("s%d", len(names))
+		names[x] = n
+		fmt.Fprintf(&lets, "let %s : str := %s in ", n, cStr(x))
+		return n
+	}
+	var os, es []string
+	for k, op := range ops {
+		if op.Serve {
+			os = append(os, fmt.Sprintf("OpServe %s %s", cNat(op.Inst), name(op.Topic)))
+		} else {
+			os = append(os, fmt.Sprintf("OpHandle %s %s %s", cNat(op.Inst), name(op.Filter), cNat(op.H)))
+		}
+		es = append(es, c14EvCoq(evs[k]))
+	}
+	return "(" + lets.String() + cTuple(cListInline(os), cListInline(es)) + ")"
+}
+
+func c14EvCoq(e c14Ev) string {
+	if !e.Serve {
+		return "EvHandle " + cBool(e.Accepted)
+	}
+	var cs []string
+	for _, c := range e.Called {
+		cs = append(cs, cNat(c))
+	}
+	return "EvServe " + cListInline(cs)
+}
+
+// c14LateHandler reports whether some Serve invoked a handler that was registered after an
+// earlier Serve of the same topic on the same instance (the situation a stale dispatch cache breaks).
+func c14LateHandler(ops []c14Op, evs []c14Ev) bool {
+	for k, op := range ops {
+		if !op.Serve {
+			continue
+		}
+		first := -1
+		for j := 0; j < k; j++ {
+			if ops[j].Serve && ops[j].Inst == op.Inst && ops[j].Topic == op.Topic {
+				first = j
+				break
+			}
+		}
+		if first < 0 {
+			continue
+		}
+		for _, h := range evs[k].Called {
+			for j := first + 1; j < k; j++ {
+				if !ops[j].Serve && ops[j].H == h && ops[j].Inst == op.Inst {
+					return true
+				}
+			}
+		}
+	}
+	return false
+}
+
+func c14RandOps(r *rand.Rand) (int, []c14Op) {
+	nInst := 1 + r.Intn(3)
+	// small pools so that topics repeat and filters match them
+	var topics, filters []string
+	for i := 2 + r.Intn(3); i > 0; i-- {
+		topics = append(topics, c14RandTopic(r, c14RandFilter(r)))
+	}
+	for i := 2 + r.Intn(4); i > 0; i-- {
+		switch r.Intn(4) {
+		case 0:
+			filters = append(filters, c14RandFilter(r))
+		default:
+			filters = append(filters, c14FilterFor(r, topics[r.Intn(len(topics))]))
+		}
+	}
+	n := 3 + r.Intn(18)
+	ops := make([]c14Op, n)
+	for k := range ops {
+		inst := 0
+		if r.Intn(3) == 0 {
+			inst = r.Intn(nInst)
+		}
+		if r.Intn(2) == 0 {
+			ops[k] = c14Op{Serve: true, Inst: inst, Topic: topics[r.Intn(len(topics))]}
+		} else {
+			f := filters[r.Intn(len(filters))]
+			if r.Intn(8) == 0 {
+				f = []string{"", "a+", "#/a", "a/#/b", "+b/c", "a/b#"}[r.Intn(6)] // rejected in between
+			}
+			ops[k] = c14Op{Inst: inst, Filter: f, H: k}
+		}
+	}
+	return nInst, ops
+}
+
+// the exhaustive histories: same 7 operations as CheckC14.exh_op
+func c14ExhOp(pos int, c byte) c14Op {
+	switch c {
+	case 0:
+		return c14Op{Inst: 0, Filter: "a", H: pos}
+	case 1:
+		return c14Op{Inst: 0, Filter: "+", H: pos}
+	case 2:
+		return c14Op{Inst: 0, Filter: "a+", H: pos}
+	case 3:
+		return c14Op{Serve: true, Inst: 0, Topic: "a"}
+	case 4:
+		return c14Op{Serve: true, Inst: 0, Topic: "b"}
+	case 5:
+		return c14Op{Inst: 1, Filter: "#", H: pos}
+	default:
+		return c14Op{Serve: true, Inst: 1, Topic: "a"}
+	}
+}
+
+// same code as CheckC14.ev_code, of the last event (0 for the empty history)
+func c14LastCode(evs []c14Ev) int64 {
+	if len(evs) == 0 {
+		return 0
+	}
+	e := evs[len(evs)-1]
+	switch {
+	case !e.Serve && !e.Accepted:
+		return 1
+	case !e.Serve:
+		return 2
+	}
+	var d int64
+	for j := len(e.Called) - 1; j >= 0; j-- {
+		d = int64(e.Called[j]+1) + 8*d
+	}
+	return 3 + 4*d
+}
+
+// c14DefLongList defines a long list as the concatenation of chunks (coqc overflows its stack on
+// a single literal list with more than some 10^5 elements).
+func c14DefLongList(cf *casesFile, name, elem string, items []string) {
+	const chunk = 4000
+	if len(items) <= chunk {
+		cf.def(name, "list "+elem, cListInline(items))
+		return
+	}
+	var parts []string
+	for i := 0; i < len(items); i += chunk {
+		j := i + chunk
+		if j > len(items) {
+			j = len(items)
+		}
+		pn := fmt.Sprintf("%s_part%d", name, i/chunk)
+		cf.def(pn, "list "+elem, cListInline(items[i:j]))
+		parts = append(parts, pn)
+	}
+	cf.def(name, "list "+elem, "concat "+cListInline(parts))
 }
 
 func runC14(cfg *runCfg) error {
@@ -122,39 +391,59 @@ func runC14(cfg *runCfg) error {
 	cf := newCasesFile("C14", "Filter", "CheckC14")
 	m := &meta{Property: "C14", Distribution: map[string]interface{}{}, Families: map[string][]interface{}{}}
 
-	// ---- family sig: the exhaustive bounded space ----
+	// ---- families sig, sigd: the exhaustive bounded spaces ----
 	fl, tl := 5, 4
 	if cfg.tier != "quick" {
 		fl, tl = 6, 5
 	}
-	filters := stringsUpto([]byte("/+#ab"), fl)
-	topics := stringsUpto([]byte("/ab"), tl)
-	var sigs []string
 	accepted, matched := 0, 0
-	for _, f := range filters {
-		acc, _ := muxProbe([]string{f}, "")
-		sig := new(big.Int)
-		if len(acc) == 1 && acc[0] {
-			accepted++
-			sig.SetBit(sig, 0, 1)
-			for k, t := range topics {
-				_, called := muxProbe([]string{f}, t)
-				if len(called) > 0 {
-					sig.SetBit(sig, k+1, 1)
-					matched++
-				}
+	sigFamily := func(name, alphaF, alphaT, model string) (int, int) {
+		filters := stringsUpto([]byte(alphaF), fl)
+		var topics []string
+		for _, t := range stringsUpto([]byte(alphaT), tl) {
+			if !strings.HasPrefix(t, "$") { // outside the property; CheckC14.topics_upto drops them too
+				topics = append(topics, t)
 			}
 		}
-		sigs = append(sigs, sig.String())
-		m.Families["sig"] = append(m.Families["sig"], map[string]interface{}{"filter": f, "signature": sig.String()})
+		var sigs []string
+		for _, f := range filters {
+			acc, _ := muxProbe([]string{f}, "")
+			sig := new(big.Int)
+			if len(acc) == 1 && acc[0] {
+				accepted++
+				sig.SetBit(sig, 0, 1)
+				for k, t := range topics {
+					_, called := muxProbe([]string{f}, t)
+					if len(called) > 0 {
+						sig.SetBit(sig, k+1, 1)
+						matched++
+					}
+				}
+			}
+			sigs = append(sigs, sig.String())
+			m.Families[name] = append(m.Families[name], map[string]interface{}{"filter": f, "signature": sig.String(),
+				"signature_bits": "bit 0 = accepted, bit k+1 = matches the k-th topic of the enumeration over {" + alphaT + "} (topics starting with '$' skipped)"})
+		}
+		c14DefLongList(cf, name+"_obs", "N", sigs)
+		cf.result("V_"+name, fmt.Sprintf("%s %s %s %s_obs", model, cNat(fl), cNat(tl), name))
+		m.Evaluations += len(filters) * len(topics)
+		m.Distribution[name+"_filters"] = len(filters)
+		m.Distribution[name+"_topics"] = len(topics)
+		return len(filters), len(topics)
 	}
-	cf.def("sig_obs", "list N", cListInline(sigs))
-	cf.result("V_sig", fmt.Sprintf("sig_mismatches %s %s sig_obs", cNat(fl), cNat(tl)))
-	m.Evaluations += len(filters) * len(topics)
-	m.Distribution["sig_filters"] = len(filters)
-	m.Distribution["sig_topics"] = len(topics)
+	sigFamily("sig", "/+#ab", "/ab", "sig_mismatches")
+	sigFamily("sigd", "/+#a$", "/a$", "sigd_mismatches")
 	m.Distribution["sig_filters_accepted"] = accepted
 	m.Distribution["sig_pairs_matched"] = matched
+
+	// informational only (topics STARTING with '$' are outside the property): what the code does there
+	{
+		_, c1 := muxProbe([]string{"#"}, "$SYS/x")
+		_, c2 := muxProbe([]string{"+/x"}, "$SYS/x")
+		_, c3 := muxProbe([]string{"$SYS/#"}, "$SYS/x")
+		m.Distribution["outside_property_dollar_first_topic"] = map[string]interface{}{
+			"'#' matches '$SYS/x'": len(c1) > 0, "'+/x' matches '$SYS/x'": len(c2) > 0, "'$SYS/#' matches '$SYS/x'": len(c3) > 0}
+	}
 
 	// ---- family rand: long / UTF-8 / mutated pairs ----
 	nRand := 2000
@@ -163,7 +452,7 @@ func runC14(cfg *runCfg) error {
 	}
 	var rc []string
 	seen := map[string]bool{}
-	rAcc, rMatch := 0, 0
+	rAcc, rMatch, rDollar, rDollarMatch := 0, 0, 0, 0
 	for i := 0; i < nRand; i++ {
 		f := c14RandFilter(r)
 		t := c14RandTopic(r, f)
@@ -178,6 +467,12 @@ func runC14(cfg *runCfg) error {
 		if !seen[f+"\x00"+t] {
 			seen[f+"\x00"+t] = true
 		}
+		if strings.Contains(t, "/$") {
+			rDollar++
+			if len(called) > 0 {
+				rDollarMatch++
+			}
+		}
 		c := map[string]interface{}{"filter": f, "topic": t, "accepted": acc[0], "matched": len(called) > 0}
 		m.Families["rand"] = append(m.Families["rand"], c)
 		if i < 3 {
@@ -191,6 +486,8 @@ func runC14(cfg *runCfg) error {
 	m.Distribution["rand_distinct"] = len(seen)
 	m.Distribution["rand_accepted"] = rAcc
 	m.Distribution["rand_matched"] = rMatch
+	m.Distribution["rand_topics_with_inner_dollar_level"] = rDollar
+	m.Distribution["rand_topics_with_inner_dollar_level_matched"] = rDollarMatch
 
 	// ---- family mux: several registrations, order of invocation ----
 	nMux := 400
@@ -234,10 +531,93 @@ func runC14(cfg *runCfg) error {
 	m.Distribution["mux_cases"] = nMux
 	m.Distribution["mux_cases_with_2plus_handlers_called"] = multi
 
-	m.DistinctNontrivial = accepted + len(seen) // accepted enumerated filters (each with a full topic sweep) + distinct random pairs
-	m.Rule = fmt.Sprintf("exhaustive: every filter over {/,+,#,a,b} up to length %d against every topic over {/,a,b} up to length %d through ServeMux.Handle/Serve; "+
-		"random: level-structured filters (wildcards, UTF-8, mutated bytes) with topics derived from them; mux: 1-6 registrations. "+
-		"distinct_nontrivial = accepted enumerated filters + distinct random (filter,topic) pairs", fl, tl)
+	// ---- family ops: random histories of Handle / Serve on 1-3 ServeMux values ----
+	nOps := 400
+	if cfg.tier != "quick" {
+		nOps = 4000
+	}
+	var oc []string
+	late, opsServes, opsHandles, opsRejected := 0, 0, 0, 0
+	lateSeen := map[string]bool{}
+	for i := 0; i < nOps; i++ {
+		nInst, ops := c14RandOps(r)
+		evs := c14RunOps(nInst, ops)
+		for k, op := range ops {
+			switch {
+			case op.Serve:
+				opsServes++
+			case evs[k].Accepted:
+				opsHandles++
+			default:
+				opsRejected++
+			}
+		}
+		if c14LateHandler(ops, evs) {
+			late++
+			lateSeen[strings.Join(c14History(ops, evs), ";")] = true
+		}
+		oc = append(oc, c14OpsCoq(ops, evs))
+		c := map[string]interface{}{"history": c14History(ops, evs), "instances": nInst}
+		m.Families["ops"] = append(m.Families["ops"], c)
+		if i < 1 {
+			m.Samples = append(m.Samples, c)
+		}
+	}
+	cf.def("ops_cases", "list (list mux_op * list mux_ev)", cList(oc))
+	cf.result("V_ops", "ops_violations ops_cases")
+	cf.result("M_ops", "ops_mismatches ops_cases")
+	m.Evaluations += opsServes + opsHandles + opsRejected
+	m.Distribution["ops_histories"] = nOps
+	m.Distribution["ops_serve_operations"] = opsServes
+	m.Distribution["ops_handle_accepted"] = opsHandles
+	m.Distribution["ops_handle_rejected"] = opsRejected
+	m.Distribution["ops_histories_where_a_handler_registered_after_an_earlier_serve_of_the_same_topic_is_invoked"] = late
+
+	// ---- family opsx: every history up to a length over 7 operations on 2 instances ----
+	xl := 5
+	if cfg.tier != "quick" {
+		xl = 6
+	}
+	var xc []string
+	xLate := 0
+	xSeen := map[string][]c14Ev{}
+	for _, code := range stringsUpto([]byte{0, 1, 2, 3, 4, 5, 6}, xl) {
+		ops := make([]c14Op, len(code))
+		for pos := range ops {
+			ops[pos] = c14ExhOp(pos, code[pos])
+		}
+		evs := c14RunOps(2, ops)
+		if c14LateHandler(ops, evs) {
+			xLate++
+		}
+		// only the last event goes to Coq; the earlier ones must repeat what the prefix history did
+		xSeen[code] = evs
+		if len(code) > 0 {
+			if pre, ok := xSeen[code[:len(code)-1]]; !ok || !reflect.DeepEqual(pre, evs[:len(evs)-1]) {
+				m.ImplViolations = append(m.ImplViolations, map[string]interface{}{
+					"what": "the same operations on fresh ServeMux values gave different events (dispatch is not a function of the history)",
+					"ops":  ops, "events": evs, "events_of_prefix_run": pre})
+			}
+		}
+		xc = append(xc, fmt.Sprint(c14LastCode(evs)))
+		m.Families["opsx"] = append(m.Families["opsx"], map[string]interface{}{"history": c14History(ops, evs), "instances": 2})
+		m.Evaluations += len(ops)
+	}
+	c14DefLongList(cf, "opsx_obs", "N", xc)
+	cf.result("V_opsx", fmt.Sprintf("exh_violations %s opsx_obs", cNat(xl)))
+	cf.result("M_opsx", fmt.Sprintf("exh_mismatches %s opsx_obs", cNat(xl)))
+	m.Distribution["opsx_histories"] = len(xc)
+	m.Distribution["opsx_max_length"] = xl
+	m.Distribution["opsx_histories_with_late_handler_invoked"] = xLate
+
+	m.DistinctNontrivial = accepted + len(seen) + len(lateSeen) + xLate
+	m.Rule = fmt.Sprintf("exhaustive (sig): every filter over {/,+,#,a,b} up to length %d against every topic over {/,a,b} up to length %d; "+
+		"exhaustive (sigd): every filter over {/,+,#,a,$} up to length %d against every topic over {/,a,$} up to length %d not starting with '$'; all through ServeMux.Handle/Serve; "+
+		"random: level-structured filters (wildcards, UTF-8, '$' levels, mutated bytes) with topics derived from them ('$'-prefixed levels at non-first positions); "+
+		"mux: 1-6 registrations then one Serve; ops: random histories of 3-20 Handle/Serve operations on 1-3 ServeMux values over small topic/filter pools "+
+		"(repeated topics, Handle after Serve, rejected filters in between); opsx: every history up to length %d over 7 operations on 2 ServeMux values. "+
+		"distinct_nontrivial = accepted enumerated filters (each with a full topic sweep) + distinct random (filter,topic) pairs "+
+		"+ distinct random histories and enumerated histories in which a Serve invoked a handler registered after an earlier Serve of the same topic", fl, tl, fl, tl, xl)
 	m.Exhaustive = true
 	if err := cf.write(cfg.outDir); err != nil {
 		return err
